@@ -18,6 +18,8 @@ import (
 	"fmt"
 	"go/ast"
 	"go/format"
+	"go/parser"
+	"go/token"
 	"go/types"
 	"log"
 	"os"
@@ -159,6 +161,11 @@ func newPackage(program *loader.Program, pkgInfo *loader.PackageInfo, plugins []
 		}
 
 		if changed {
+			// The loader tolerates syntax errors; formatting the error-recovered AST of such a
+			// file would replace the text the parser could not understand.
+			if _, err := parser.ParseFile(token.NewFileSet(), fileInfo.fullpath, nil, parser.ParseComments); err != nil {
+				return nil, fmt.Errorf("not rewriting %s, which does not parse: %v", fileInfo.fullpath, err)
+			}
 			info, err := os.Stat(fileInfo.fullpath)
 			if err != nil {
 				return nil, fmt.Errorf("stat %s: %v", fileInfo.fullpath, err)
